@@ -140,12 +140,12 @@ def check(run):
             run.count(("dedup", gi, users, skind))
             steps, trailer = histcheck.parse_run(io[1]) if len(io) > 1 else ([], "")
             if len(steps) != 1 + 2 * users:
-                oracle_fail.append((cfg, "HRUN 1 0 - " + s[:2000], "history runs", (c2 or "")[-300:])); continue
+                oracle_fail.append((cfg, f"HRUN 1 {skind} - " + s[:2000], "history runs", (c2 or "")[-300:])); continue
             mo, _ = vlib.run_lines(model, ["CFG " + cfg, "HEXP 1 " + s])
             exp = [x for x in mo[1].split(" ;; ") if x.strip()]
             kdiv = histcheck.first_divergence(exp, steps)
             if kdiv is not None:
-                oracle_fail.append((cfg, "HRUN 1 0 - " + s[:3000], f"step {kdiv}: the other users of a shared string are intact: {exp[kdiv][:120]} [geometry {defs}]", steps[kdiv][0][:200] if kdiv < len(steps) else "missing"))
+                oracle_fail.append((cfg, f"HRUN 1 {skind} - " + s[:3000], f"step {kdiv}: the other users of a shared string are intact: {exp[kdiv][:120]} [geometry {defs}]", steps[kdiv][0][:200] if kdiv < len(steps) else "missing"))
                 continue
             adds = steps[1:1 + users]
             rms = steps[1 + users:]
@@ -157,12 +157,12 @@ def check(run):
             for i, st in enumerate(adds):
                 expected_blocks = slot_pools(i + 1) + 1    # pools + one string node (pool table inline or +1 when on heap)
                 if st[4] < expected_blocks or st[4] > expected_blocks + 1:
-                    oracle_fail.append((cfg, "HRUN 1 0 - " + s[:2000], f"after {i + 1} users: {expected_blocks} (+1 heap table) live blocks: the string is stored once [geometry {defs}]", str(st[4])))
+                    oracle_fail.append((cfg, f"HRUN 1 {skind} - " + s[:2000], f"after {i + 1} users: {expected_blocks} (+1 heap table) live blocks: the string is stored once [geometry {defs}]", str(st[4])))
                     break
             if rms and not (rms[-1][4] == rms[-2][4] - 1 if len(rms) > 1 else True):
-                oracle_fail.append((cfg, "HRUN 1 0 - " + s[:2000], "the string node is released exactly when its last user is removed", f"{rms[-2][4]} -> {rms[-1][4]} live blocks"))
+                oracle_fail.append((cfg, f"HRUN 1 {skind} - " + s[:2000], "the string node is released exactly when its last user is removed", f"{rms[-2][4]} -> {rms[-1][4]} live blocks"))
             if any(rms[i][4] != rms[0][4] for i in range(len(rms) - 1)):
-                oracle_fail.append((cfg, "HRUN 1 0 - " + s[:2000], "the string node stays while it has users", " ".join(str(x[4]) for x in rms[:12])))
+                oracle_fail.append((cfg, f"HRUN 1 {skind} - " + s[:2000], "the string node stays while it has users", " ".join(str(x[4]) for x in rms[:12])))
         run.sample(dict(geometry=defs, case=("HRUN 3 0 - " + (hs[0] if hs else script_churn("D3fb999999999999a", 3, 2)[0]))[:300]))
     # memory requested while deserializing: one maximum-size string + linear in the bytes consumed
     implD = vlib.need_harness("doc_h", cfg)
